@@ -1280,6 +1280,18 @@ impl Worterbuch {
             }
         }
 
+        let ls_subscription_keys: Vec<SubscriptionId> = self
+            .ls_subscriptions
+            .keys()
+            .filter(|k| k.client_id == client_id)
+            .map(ToOwned::to_owned)
+            .collect();
+        for subscription in ls_subscription_keys {
+            if let Err(e) = self.do_unsubscribe_ls(&subscription) {
+                error!("Inconsistent ls subscription state: {e}");
+            }
+        }
+
         let pattern = topic!(SYSTEM_TOPIC_ROOT, SYSTEM_TOPIC_CLIENTS, client_id, "#");
         debug!("Deleting {pattern}");
         if let Err(e) = self.pdelete(pattern, INTERNAL_CLIENT_ID).await {
